@@ -135,7 +135,9 @@ HeaderOf(n, id) == IF \E x \in n.hdr : x.id = id THEN CHOOSE x \in n.hdr : x.id 
 RECURSIVE RemoveSteps(_, _)
 RemoveSteps(n, hs) ==
     IF hs = <<>> THEN <<>>
-    ELSE (IF Has(n.canon, Head(hs))
+    ELSE \* the identity diff of a reverted height is removed first, whether or not one was written (repaired code: C11)
+         <<StepV("DelDiff", TRUE, Head(hs))>>
+         \o (IF Has(n.canon, Head(hs))
           THEN <<[Step("DelHeader", TRUE) EXCEPT !.last = n.canon[Head(hs)]], StepV("DelCanon", TRUE, Head(hs))>>
           ELSE <<>>) \o RemoveSteps(n, Tail(hs))
 
@@ -248,6 +250,7 @@ Effect(n, s) ==
              [n EXCEPT !.iv = Drop(@, {v \in DOMAIN n.iv : v > s.v}), !.mi = n.iv[s.v], !.todo = rest]
       [] s.k = "DelHeader" -> [n EXCEPT !.hdr = {x \in @ : x.id # s.last}, !.todo = rest]
       [] s.k = "DelCanon"  -> [n EXCEPT !.canon = Drop(@, {s.v}), !.todo = rest]
+      [] s.k = "DelDiff"   -> [n EXCEPT !.diff = Drop(@, {s.v}), !.todo = rest]
       [] s.k = "InitPrelim" -> [n EXCEPT !.mphead = n.mhead, !.todo = rest]
       [] s.k = "LoadPrelim" -> [n EXCEPT !.mp = n.pv[s.v], !.todo = rest]
       [] s.k = "PCopy"      -> [n EXCEPT !.pv = Over(n.iv, n.pv), !.mp = n.mi, !.todo = rest]
@@ -267,20 +270,21 @@ Effect(n, s) ==
                               ELSE [n EXCEPT !.up = TRUE, !.mhead = n.head, !.mphead = n.phead, !.todo = rest]
       [] s.k = "InitState" ->
              IF Has(n.sv, n.mhead.h) /\ Has(n.iv, n.mhead.h)
-             THEN [n EXCEPT !.ms = n.sv[n.mhead.h], !.mi = n.iv[n.mhead.h], !.todo = rest]
+             THEN IF ~KeepOrphanVersions /\ n.mhead.h > 0
+                  THEN \* repaired code (AppState.Initialize): after loading the head's versions, both trees are reset to
+                       \* the head height, which drops the versions above it (left by an interrupted insertion)
+                       [n EXCEPT !.ms = n.sv[n.mhead.h], !.mi = n.iv[n.mhead.h],
+                                 !.todo = <<StepV(IF \E v \in DOMAIN n.sv : v > n.mhead.h THEN "SRollback" ELSE "SRollbackNoop",
+                                                  \E v \in DOMAIN n.sv : v > n.mhead.h, n.mhead.h),
+                                            StepV(IF \E v \in DOMAIN n.iv : v > n.mhead.h THEN "IRollback" ELSE "IRollbackNoop",
+                                                  \E v \in DOMAIN n.iv : v > n.mhead.h, n.mhead.h)>> \o rest]
+                  ELSE [n EXCEPT !.ms = n.sv[n.mhead.h], !.mi = n.iv[n.mhead.h], !.todo = rest]
              ELSE IF DOMAIN n.sv = {} \/ DOMAIN n.iv = {}
                   THEN [n EXCEPT !.ph = "failed", !.todo = <<>>, !.why = "no tree version"]
                   ELSE [n EXCEPT !.ms = n.sv[MaxOf(DOMAIN n.sv)], !.mi = n.iv[MaxOf(DOMAIN n.iv)], !.todo = rest]  \* Initialize(0)
       [] s.k = "Integrity" ->
              IF RootsMatch(n)
-             THEN IF ~KeepOrphanVersions /\ (\E v \in (DOMAIN n.sv) \cup (DOMAIN n.iv) : v > n.mhead.h)
-                  THEN \* repaired design: start-up drops the tree versions above the head
-                       [n EXCEPT !.todo = <<StepV(IF \E v \in DOMAIN n.sv : v > n.mhead.h THEN "SRollback" ELSE "SRollbackNoop",
-                                                  \E v \in DOMAIN n.sv : v > n.mhead.h, n.mhead.h),
-                                            StepV(IF \E v \in DOMAIN n.iv : v > n.mhead.h THEN "IRollback" ELSE "IRollbackNoop",
-                                                  \E v \in DOMAIN n.iv : v > n.mhead.h, n.mhead.h),
-                                            Step("Integrity", FALSE)>>]
-                  ELSE [n EXCEPT !.ph = "idle", !.todo = <<>>]
+             THEN [n EXCEPT !.ph = "idle", !.todo = <<>>]
              ELSE IF s.last = n.mhead.id
                   THEN [n EXCEPT !.ph = "hang", !.todo = <<>>, !.why = "EnsureIntegrity does not make progress"]
              ELSE IF IntegrityCandidates(n) = {}
